@@ -27,7 +27,8 @@ Definition stage_after (th : thread) : nat :=
 Lemma stage_step g t th g' th' :
   pc_ok th = true -> step_thread g t th = Some (g', th') -> t_pc th' <> PPanic ->
   match t_pc th with
-  | PIdle => cstage th = 0 /\ (cstage th' = 0 \/ (cstage th' = 1 /\ cur_op th = Some OClose /\ g_closed g = false))
+  | PIdle => cstage th = 0 /\ ((cstage th' = 0 /\ g_closed g' = g_closed g) \/
+                              (cstage th' = 1 /\ cur_op th = Some OClose /\ g_closed g = false /\ g_closed g' = true))
   | _ => cstage th' = stage_after th
   end.
 Proof.
@@ -487,4 +488,58 @@ Section Pres.
       [eapply chan_step_special | eapply chan_step_plain]; eauto.
   Qed.
 
+
+  (* ---- what a step of t can do to the fields another thread u relies on ------------------ *)
+  Lemma two_holders s t u th thu :
+    Safe s -> nth_error (ths s) t = Some th -> nth_error (ths s) u = Some thu ->
+    holds_mu th = true -> holds_mu thu = true -> t = u.
+  Proof. intros SA E Eu H1 H2. pose proof (a_mu1 _ SA _ _ E H1). pose proof (a_mu1 _ SA _ _ Eu H2). congruence. Qed.
+
+  Ltac holder_of P := unfold holds_mu; rewrite P; reflexivity.
+
+  Lemma cur_stable s t u th thu g' th' :
+    Safe s -> nth_error (ths s) t = Some th -> nth_error (ths s) u = Some thu -> u <> t ->
+    step_thread (sh s) t th = Some (g', th') -> holds_mu thu = true -> g_cur g' = g_cur (sh s).
+  Proof.
+    intros SA E Eu N F Hu. destruct (frame_cur _ _ _ _ _ F) as [(Q & _)|[(y & k & st0 & P & _)|(x & P & _)]]; [exact Q| |];
+      exfalso; apply N; symmetry; apply (two_holders s t u th thu SA E Eu); auto; holder_of P.
+  Qed.
+
+  Lemma open_stable g t th g' th' x :
+    step_thread g t th = Some (g', th') -> x < length (g_states g) ->
+    s_open (getst g' x) = s_open (getst g x) /\ length (g_states g) <= length (g_states g').
+  Proof.
+    intros F L. destruct (frame_cur _ _ _ _ _ F) as [(_ & Q1 & Q2)|[(y & k & st0 & P & _ & _ & Q)|(y & P & _ & Q & _)]].
+    - split; [apply Q2 | lia].
+    - unfold getst. rewrite Q, app_length. split; [now rewrite app_nth1 by exact L | lia].
+    - unfold getst. rewrite Q, app_length. split; [now rewrite app_nth1 by exact L | lia].
+  Qed.
+
+  Lemma await_stable_h s t u th thu g' th' :
+    Safe s -> nth_error (ths s) t = Some th -> nth_error (ths s) u = Some thu -> u <> t ->
+    step_thread (sh s) t th = Some (g', th') -> holds_mu thu = true -> g_await g' = g_await (sh s).
+  Proof.
+    intros SA E Eu N F Hu.
+    destruct (frame_await _ _ _ _ _ F) as [(Q & _)|[(x & P & _)|[(P & _)|[(P & _)|(c & P & Q & _)]]]]; auto;
+      exfalso; apply N; symmetry; apply (two_holders s t u th thu SA E Eu); auto; holder_of P.
+  Qed.
+
+  Lemma trig_stable s t u th thu g' th' :
+    Safe s -> nth_error (ths s) t = Some th -> nth_error (ths s) u = Some thu -> u <> t ->
+    step_thread (sh s) t th = Some (g', th') -> holds_mu thu = true ->
+    g_trig (sh s) = false -> g_trig g' = false.
+  Proof.
+    intros SA E Eu N F Hu Tr.
+    destruct (frame_trig _ _ _ _ _ F) as [(Q & _)|[(x & P & _)|[(P & _ & Q & _)|(P & Q & _)]]]; try congruence.
+    exfalso; apply N; symmetry; apply (two_holders s t u th thu SA E Eu); auto; holder_of P.
+  Qed.
+
+  Lemma chans_len g t th g' th' :
+    step_thread g t th = Some (g', th') -> length (g_chans g) <= length (g_chans g').
+  Proof.
+    intros F.
+    destruct (frame_await _ _ _ _ _ F) as [(_ & Q)|[(x & _ & _ & _ & Q & _)|[(_ & _ & Q & _)|[(_ & _ & _ & Q)|(c & _ & _ & Q & _)]]]];
+      try (rewrite Q; rewrite ?app_length, ?upd_length; cbn; lia).
+    destruct (g_await g); rewrite Q; rewrite ?upd_length; lia.
+  Qed.
 End Pres.
